@@ -204,6 +204,11 @@ func (rb *Rebalancer) UpsertServer(u *url.URL, options ...ServerOption) error {
 	rb.mtx.Lock()
 	defer rb.mtx.Unlock()
 
+	if s, i := rb.findServer(u); i != -1 {
+		// The balancer may currently hold a weight adjusted by the rebalancer. Put the configured
+		// weight back first, so that a call without Weight option does not adopt the adjusted one.
+		_ = rb.next.UpsertServer(u, Weight(s.origWeight))
+	}
 	if err := rb.next.UpsertServer(u, options...); err != nil {
 		return err
 	}
